@@ -17,6 +17,8 @@ def groups():
                    what='cstl_heap_find: turning a level-order number into the descent bit mask is defined for every number 0..2^32-2 '
                         '(no signed overflow / undefined shift), which is what "located from the size alone" needs at every size',
                    scope='all node numbers id with id + 1 <= UINT_MAX; empty tree, so only the index arithmetic is exercised'))
+    G.append(Group('heap.get', ['C07'], 'P', S, 'h_get', sources=src, defines=['-DVF_FIND'], unwind=4, replay=True, malloc_fail=False, functions=['cstl_heap_get'],
+                   what='cstl_heap_get: the element embedding the root node for every node offset, NULL exactly for an empty heap, nothing written'))
     G.append(Group('heap.find.path', ['C07'], 'P', S, 'h_find_path', sources=src, defines=['-DVF_FIND'], unwind=36, replay=True, malloc_fail=False, timeout=900,
                    what='cstl_heap_find, every level-order number id < 2^32-1 and every step j of the descent: floor(log2(id+1)) steps, step j goes left/right as bit (depth-j) '
                         'of id+1 says (recording tree; j arbitrary so every step is checked): "the next free slot and the last element are located from the size alone"',
